@@ -62,7 +62,7 @@ func genC14(dir, tier string, seed int64) {
 		n = 20000
 	}
 	rw := newCaseWriter(dir, "C14_random", opHeader("CheckC14"), opFooter,
-		"seeded random: rank 0..5, extents 1..6 (B derived from A by dropping leading axes / setting axes to 1 / perturbing one extent, so that compatible and incompatible pairs both occur), all dtypes", false, 300)
+		"seeded random: rank 0..5, extents 1..6 (one case in eight: ranks 5 and 6 with B equal to A except for one, mostly late, axis) (B derived from A by dropping leading axes / setting axes to 1 / perturbing one extent, so that compatible and incompatible pairs both occur), all dtypes", false, 300)
 	for i := 0; i < n; i++ {
 		ra := r.Intn(6)
 		sa := make([]int, ra)
@@ -85,6 +85,21 @@ func genC14(dir, tier string, seed int64) {
 			default:
 				sb[j] = 1 + r.Intn(6)
 			}
+		}
+		if i%8 == 7 {
+			// ranks 5 and 6: B is A except for ONE axis (stretched from 1, or clashing), mostly a late one
+			ra = 5 + r.Intn(2)
+			sa = make([]int, ra)
+			for j := range sa {
+				sa[j] = 1 + r.Intn(2)
+			}
+			sb = append([]int{}, sa...)
+			ax := ra - 1 - r.Intn(2)
+			if r.Intn(4) == 0 {
+				ax = r.Intn(ra)
+			}
+			sa[ax] = 2 + r.Intn(2)
+			sb[ax] = []int{1, 1, sa[ax] + 1}[r.Intn(3)]
 		}
 		if numel(sa) > 400 || numel(sb) > 400 {
 			i--
